@@ -143,12 +143,14 @@ sign-symmetric (`rne64_rounding`, RoundedLemmas.lean), so the theorems above hol
 
 /-- In binary64 arithmetic `FloatValueApprox(fraction, margin)` accepts EXACTLY the pairs of finite floats that are
 within the stated tolerance over the reals, or whose distance rounds to the same float as that tolerance — for all
-fractions, all margins that are floats, all finite values; inputs whose arithmetic rounds included. -/
-theorem C16_float_approx_binary64 (fr mg x y : Rat) (hmg : rne64 mg = mg) :
+fractions, all margins that are binary64 numbers (values of `rne64`, which is idempotent: `rne64_idem`), all finite
+values; inputs whose arithmetic rounds included. -/
+theorem C16_float_approx_binary64 (fr mg x y : Rat) (hmg : ∃ m, mg = rne64 m) :
     floatApproxR rne64 fr mg x y = true ↔
       ((x - y).abs ≤ max mg (fr * min x.abs y.abs) ∨
-       rne64 (x - y).abs = rne64 (max mg (fr * min x.abs y.abs))) :=
-  C16_float_approx_rounded rne64 rne64_rounding fr mg x y hmg
+       rne64 (x - y).abs = rne64 (max mg (fr * min x.abs y.abs))) := by
+  obtain ⟨m, rfl⟩ := hmg
+  exact C16_float_approx_rounded rne64 rne64_rounding fr (rne64 m) x y (rne64_idem m)
 
 /-- In binary64 arithmetic, without any hypothesis: `FloatValueApprox` is symmetric for all fractions, margins and
 finite values and reflexive when the margin or the fraction is non-negative; `DurationValueWithinP` is symmetric
@@ -163,9 +165,10 @@ theorem C16_tolerance_binary64 (fr mg x y p : Rat) (xd yd : Int) :
    (C16_durationP_rounded rne64 rne64_signSymmetric p xd yd).1,
    (C16_durationP_rounded rne64 rne64_signSymmetric p xd yd).2⟩
 
-/-- The margin hypothesis of `C16_float_approx_binary64` is satisfiable: 0, 0.5 and 0.1-as-a-float are floats. -/
+/-- The binary64 numbers are the fixed points of `rne64`: 0, 0.5 and 0.1-as-a-float are, 0.1 is not. -/
 example : rne64 0 = 0 ∧ rne64 (1 / 2) = 1 / 2 ∧
-    rne64 (3602879701896397 / 36028797018963968) = 3602879701896397 / 36028797018963968 := by
+    rne64 (3602879701896397 / 36028797018963968) = 3602879701896397 / 36028797018963968 ∧
+    rne64 (1 / 10) ≠ 1 / 10 := by
   decide +kernel
 
 /-! ### The comparer as a whole, overflow included -/
